@@ -215,13 +215,7 @@ def block_thermal_holstein(ctx, ht):
                 run.violation(f"MpDm.max_entangled_{'ex' if ex else 'gs'}:not-sector-identity",
                               dict(model=ht.describe(), deviation=float(np.linalg.norm(D0 - P / np.linalg.norm(P)))))
             init.compress_config = CompressConfig(CompressCriteria.fixed, max_bonddim=64)
-            if spec["kind"] in ("ps", "ps2", "muvmf") and not ex:
-                # ThermalProp's automatic expansion asserts qntot == 1 for an MpDm (explicit
-                # precondition of expand_bond_dimension(include_ex=True)): expand by hand
-                run.count("thermal:gs:tdvp:manual-expand")
-                init = init.expand_bond_dimension(Mpo(ht.model), include_ex=False)
-                tp = ThermalProp(init, evolve_config=make_cfg(spec, imag=True), auto_expand=False)
-            elif explicit:
+            if explicit:
                 tp = ThermalProp(init, h_mpo_model=ht.model, evolve_config=make_cfg(spec, imag=True))
             else:
                 tp = ThermalProp(init, evolve_config=make_cfg(spec, imag=True))
